@@ -287,6 +287,15 @@ def opXM (mode ref : String) : Option String :=
     if ref.startsWith "out:" then ofHex (ref.drop 4).toString else none
   let show' (r : Option Bytes × Option Err) : String :=
     (match r.1 with | some b => "out:" ++ toHex b | none => "noout") ++ "|" ++ errTag r.2
+  let nilrep := mode.startsWith "nilreport+"
+  let mode := if nilrep then (mode.drop 10).toString else mode
+  if nilrep then
+    (if mode == "string" || mode == "held" then some (show' (Report.exportWithString engine true []))
+     else if mode == "reader" || mode == "chunked" || mode == "heldreader" then some (show' (Report.exportWith engine true (.content [])))
+     else if mode == "nilreader" then some (show' (Report.exportWith engine true .nil))
+     else if mode.startsWith "fail:" then some (show' (Report.exportWith engine true .fails))
+     else none)
+  else
   if mode == "string" || mode == "held" then some (show' (Report.exportWithString engine false []))
   else if mode == "heldreader" then some (show' (Report.exportWith engine false (.content [])))
   else if mode == "nilreport" then some (show' (Report.exportWithString engine true []))
